@@ -120,7 +120,8 @@ def run_C07(ctx):
 def run_C13(ctx):
     run_model(ctx, "MC_BigInt", workers=4)
     run_model(ctx, "MC_GeometryB", workers=8)
-    drive_and_validate(ctx, [{"driver": "C13", "n": sz(ctx, 1600, 60000), "probes": 24}])
+    drive_and_validate(ctx, [{"driver": "C13", "n": sz(ctx, 1600, 60000), "probes": 24},
+                             {"driver": "C13S", "n": sz(ctx, 800, 40000)}])
 
 
 def run_C18(ctx):
